@@ -18,7 +18,13 @@ Props == {"C01", "C02", "C03", "C04", "C06", "C07", "C08", "C09", "C10", "C11", 
 \* a scenario may start with a first ParseArgs on the same parser (prelude); the judged call is the second one
 Final(rec, argv) ==
   LET s0 == S0(Decls[rec.decl], [rec EXCEPT !.argv = IF rec.hasPrelude THEN rec.prelude ELSE argv, !.completion = IF rec.hasPrelude THEN E ELSE rec.completion], FTab) IN
-  IF rec.hasPrelude THEN Run([ReuseState(Run(s0), argv) EXCEPT !.sc.completion = rec.completion]) ELSE Run(s0)
+  IF ~rec.hasPrelude THEN Run(s0)
+  ELSE IF rec.renameOpt > 0 THEN     \* the LongName field of one option was assigned between the calls: the second call knows it by the new name only
+       LET s1 == ReuseState(Run(s0), argv)
+           od == [s1.opts[rec.renameOpt] EXCEPT !.long = rec.renameLong] IN
+       Run([s1 EXCEPT !.opts[rec.renameOpt] = od, !.nsLong[rec.renameOpt] = NsLong(s1.d, od), !.sc.completion = rec.completion])
+  ELSE IF rec.lateGroup THEN Run([UnmaskLate(ReuseState(Run(MaskLate(s0)), argv), s0) EXCEPT !.sc.completion = rec.completion])
+  ELSE Run([ReuseState(Run(s0), argv) EXCEPT !.sc.completion = rec.completion])
 
 UserN(f) == Len(f.d.opts)
 ValEq(kind, sv, ov) == IF kind = "map" THEN SeqToSet(sv) = SeqToSet(ov) /\ Len(sv) = Len(ov) ELSE sv = ov
